@@ -37,7 +37,7 @@ func main() {
 	recoveries := []string{"reader-gc", "gc-reader", "writer-reader"}
 	var jobs []sched.Job
 	specs := map[string]func() *txnh.TxnScenario{}
-	for _, bk := range common.Backends() {
+	for _, bk := range common.BackendsTier(run.Thorough()) {
 		for _, m := range bk.Modes {
 			for _, sh := range common.Shapes(run.Thorough()) {
 				if sh.Pess != m.Pessimistic {
